@@ -281,6 +281,7 @@ structure Sets where
   userinfo : Byte → Bool
   path : Byte → Bool
   fragment : Byte → Bool
+  host : Byte → Bool := fun _ => false      -- UNRESERVED + SUB_DELIMS: what a registered name may hold unescaped (F65 repair)
 
 /-- `b'%d' % port` (the same digit loop as in the start line) -/
 def natToDec (n : Nat) : Bytes := StartLine.natToDec n
@@ -303,6 +304,8 @@ def composeAuthority (P : Sets) (u : Uri) : R Bytes :=
       Percent.quote (fun b => P.userinfo b && b != 0x3A) u.username ++      -- user name: USERINFO without ':' (F21 repair)
         (if u.password.isEmpty then [] else 0x3A :: Percent.quote P.userinfo u.password) ++ [0x40]
     let h ← idnaEncodeAscii u.host
+    -- a registered name is percent-encoded like every other component; a bracketed literal is written as it is (F65 repair)
+    let h := if startsWith h [0x5B] && endsWith h [0x5D] then h else Percent.quote P.host h
     let port := match u.portProp with
       | some p => if some p != u.PORT then 0x3A :: natToDec p else []
       | none => []
